@@ -22,6 +22,12 @@ type messageSetReader struct {
 	// This is used to detect truncation of the response.
 	lengthRemain int
 
+	// Last offset covered by the most recent record batch (v2) header that
+	// was read, valid when hasLastBatchOffset is true. It is used to move
+	// past batches that have no records left after log compaction.
+	lastBatchOffset    int64
+	hasLastBatchOffset bool
+
 	decompressed *bytes.Buffer
 }
 
@@ -487,6 +493,8 @@ func (r *messageSetReader) readHeader() (err error) {
 			return
 		}
 		r.count = int(r.header.v2.count)
+		r.lastBatchOffset = r.header.firstOffset + int64(r.header.v2.lastOffsetDelta)
+		r.hasLastBatchOffset = true
 		// Subtracts the header bytes from the length
 		r.lengthRemain = int(r.header.length) - 49
 		if r.debug {
